@@ -239,6 +239,21 @@ def family(noise=1.0, geom=0):
         n.clusters[0].cov = cov_family(6, b, 6.0)
         add("lev.dist+cov%d" % b, n, planar=False)
 
+    # ---- several levelling clusters in one document, every order of {cov-mat band 1 with stdev/dist attributes kept,
+    # cov-mat band 0, plain stdev} x cluster sizes 2+4 / 4+2 / 3+3: nothing of one cluster may reach the next
+    for sizes in ((2, 4), (4, 2), (3, 3)):
+        for kinds in (("cov1", "plain"), ("plain", "cov1"), ("cov1", "cov0"), ("cov1", "cov1"), ("cov1d", "plain")):
+            n = baselev(); allobs = n.clusters[0].obs; n.clusters = []; at = 0
+            for sz, kd in zip(sizes, kinds):
+                c = Cluster("height-differences", obs=allobs[at:at + sz]); at += sz
+                if kd.startswith("cov"):
+                    c.cov = cov_family(sz, int(kd[3]), 6.0)
+                    for i, o in enumerate(c.obs):
+                        if kd.endswith("d"): o.stdev = None; o.dist = [0.5, 0.8, 1.2, 0.3][i]
+                        # else: the stdev attributes stay next to the cov-mat (what --export itself writes)
+                n.clusters.append(c)
+            add("lev.multi.%d+%d.%s+%s" % (sizes + kinds), n, planar=False)
+
     # ---- covariance matrices of the other cluster kinds
     for b, nm in ((0, "0"), (1, "1"), (4, "full")):
         n = base2d(); c = n.clusters[0]
@@ -372,6 +387,24 @@ def family(noise=1.0, geom=0):
     add("desc.lt", n)
     n = base2d(); n.description = "it's \"quoted\"\n second line"
     add("desc.quot", n)
+    # every XML special character alone (so that no other one triggers the escaping) in a description, in every
+    # extern attribute and in a point id
+    for nm, ch in (("amp", "&"), ("lt", "<"), ("gt", ">"), ("apos", "'"), ("quot", '"')):
+        n = base2d(); n.description = "net %s 7" % ch
+        add("desc.only-" + nm, n)
+        n = base2d()
+        for i, o in enumerate(o for c in n.clusters for o in c.obs): o.extern = "prism 2.5%s k%d" % (ch, i)
+        add("ext.only-" + nm, n)
+        n = base3dc(); _cl(n, "coordinates").extern = "cset %s 7" % ch
+        add("ext.coord.only-" + nm, n)
+        n = base2d(); ren = {"P": "P%s1" % ch}
+        for p in n.points: p.id = ren.get(p.id, p.id)
+        for o in (o for c in n.clusters for o in c.obs):
+            for f in ("frm", "to", "bs", "fs"):
+                if getattr(o, f) in ren: setattr(o, f, ren[getattr(o, f)])
+        for c in n.clusters:
+            if c.frm in ren: c.frm = ren[c.frm]
+        add("id.only-" + nm, n)
 
     # ---- removed observations
     n = base2d(); n.params["tol-abs"] = 200.0
